@@ -34,12 +34,17 @@ func (t *e1) close() {
 
 // startE1 brings the topology up and waits until a probe request is served.
 func startE1(r *core.Run, md *fakes.Metadata, serverBin, agentBin, tag string, agentArgs ...string) (*e1, error) {
+	return startE1Env(r, md, serverBin, agentBin, tag, nil, agentArgs...)
+}
+
+// startE1Env is startE1 with extra environment for the server (hook delays).
+func startE1Env(r *core.Run, md *fakes.Metadata, serverBin, agentBin, tag string, serverEnv []string, agentArgs ...string) (*e1, error) {
 	t := &e1{r: r, md: md}
 	var err error
 	if t.backend, err = newTokBackend(); err != nil {
 		return nil, err
 	}
-	if t.server, t.addr, err = startServer(r, serverBin, "server-"+tag); err != nil {
+	if t.server, t.addr, err = startServer(r, serverBin, "server-"+tag, serverEnv...); err != nil {
 		t.close()
 		return nil, err
 	}
@@ -103,7 +108,12 @@ func C01(r *core.Run) {
 		if r.Quick() && K == 128 {
 			K = 64
 		}
-		t, err := startE1(r, md, serverBin, agentBin, fmt.Sprintf("r%d", round))
+		var senv []string
+		if round%2 == 1 {
+			// widen the window after ID generation in every other round
+			senv = []string{"VERIF_HOOK_DELAYS=server.id.new=1ms@30"}
+		}
+		t, err := startE1Env(r, md, serverBin, agentBin, fmt.Sprintf("r%d", round), senv)
 		if err != nil {
 			r.Broken("start: " + err.Error())
 			break
@@ -256,6 +266,8 @@ func C01(r *core.Run) {
 			r.Sample(map[string]interface{}{"round": round, "clients": K, "first_requests": plans[0][:min(3, len(plans[0]))]})
 		}
 		judgeProcs(r, true, t.server, t.agent)
+		time.Sleep(250 * time.Millisecond) // let the hook counters be flushed
+		r.Add("hook_hits_server.id.new", hookHits(r, fmt.Sprintf("server-r%d", round))["server.id.new"])
 		t.close()
 	}
 	r.JudgeRaces(core.ParseRaceLogs(filepath.Join(r.WorkDir, "race-")))
